@@ -178,7 +178,7 @@ func (g *lockGen) plan() *BlockPlan {
 	}
 	now := s.Tick + plan.DT
 	// evidence
-	if r.Intn(8) == 0 {
+	for k := []int{0, 0, 0, 0, 0, 0, 0, 1, 1, 2, 3}[r.Intn(11)]; k > 0; k-- { // often none, sometimes several pieces in one block (fresh and expired ones mixed)
 		if len(existing) > 1 {
 			vi := existing[1+r.Intn(len(existing)-1)]
 			typ := []abci.MisbehaviorType{abci.MisbehaviorType_DUPLICATE_VOTE, abci.MisbehaviorType_LIGHT_CLIENT_ATTACK, abci.MisbehaviorType_UNKNOWN}[r.Intn(3)]
